@@ -5,27 +5,22 @@
 From Coq Require Import List NArith Bool Lia ZifyN ZifyNat ZifyBool Arith.
 From Frugal Require Import Bytes Wire Skip Values Desc Spec Decode Checks.
 From Frugal.gen Require Import Params.
-From Frugal.proofs Require Import BytesWire EncodeSpec.
+From Frugal.proofs Require Import BytesWire EncodeSpec ParamsSplit.
 Import ListNotations.
 Open Scope N_scope.
 
 (* ------------------------------------------------------------------ *)
-(* what is used of params_ok                                            *)
+(* what is used of dec_params_ok                                            *)
 (* ------------------------------------------------------------------ *)
 
-Lemma params_split : params_ok = true ->
-  codes_ok = true /\ fixed_ok = true /\ minwire_ok = true /\ depth_ok = true.
+Lemma params_split : dec_params_ok = true ->
+  codes_ok = true /\ fixed_ok = true /\ minwire_ok = true /\ 0 < maxDepthLimit.
 Proof.
-  unfold params_ok. intros H.
-  apply andb_prop in H. destruct H as [H _].
-  apply andb_prop in H. destruct H as [H H4].
-  apply andb_prop in H. destruct H as [H H3].
-  apply andb_prop in H. destruct H as [H _].
-  apply andb_prop in H. destruct H as [H1 H2].
-  repeat split; assumption.
+  intros H.
+  exact (conj (dec_codes H) (conj (dec_fixed H) (conj (dec_minwire H) (dec_depth_pos H)))).
 Qed.
 
-Lemma header_lens : params_ok = true ->
+Lemma header_lens : dec_params_ok = true ->
   mapHeaderLen = 6 /\ listHeaderLen = 5 /\ strHeaderLen = 4.
 Proof.
   intros HP. destruct (params_split HP) as [H _]. unfold codes_ok in H.
@@ -35,17 +30,17 @@ Proof.
   repeat split; assumption.
 Qed.
 
-Lemma wt_in_codes : params_ok = true -> forall t, In (wt t) wire_codes.
+Lemma wt_in_codes : dec_params_ok = true -> forall t, In (wt t) wire_codes.
 Proof.
   intros HP.
-  destruct (codes_eqs HP) as (E0 & E1 & E2 & E3 & E4 & E5 & E6 & E7 & E8 & E9 & E10 & E11).
+  destruct (codes_eqs (dec_enc HP)) as (E0 & E1 & E2 & E3 & E4 & E5 & E6 & E7 & E8 & E9 & E10 & E11).
   induction t as [| | | | | | | | |b e IH|k IHk v IHv|sid|t IH]; cbn [wt];
     try exact IH; try destruct b;
     rewrite ?E1, ?E2, ?E3, ?E4, ?E5, ?E6, ?E7, ?E8, ?E9, ?E10, ?E11;
     unfold wire_codes; in_list.
 Qed.
 
-Lemma minwire_pos : params_ok = true -> forall t, 0 < min_wire (wt t).
+Lemma minwire_pos : dec_params_ok = true -> forall t, 0 < min_wire (wt t).
 Proof.
   intros HP t. destruct (params_split HP) as (_ & _ & H & _).
   unfold minwire_ok in H. apply andb_prop in H. destruct H as [H _].
@@ -53,7 +48,7 @@ Proof.
   apply andb_prop in H. destruct H as [H _]. apply N.ltb_lt in H. exact H.
 Qed.
 
-Lemma scalar_sizes : params_ok = true -> forall t, is_scalar_ty t = true ->
+Lemma scalar_sizes : dec_params_ok = true -> forall t, is_scalar_ty t = true ->
   fixed_size t = wire_width t /\ min_wire (wt t) = wire_width t.
 Proof.
   intros HP t Ht. destruct (params_split HP) as (_ & HF & HM & _).
@@ -65,7 +60,7 @@ Proof.
   apply N.eqb_eq in HF, HM. split; assumption.
 Qed.
 
-Lemma nonscalar_size : params_ok = true -> forall t,
+Lemma nonscalar_size : dec_params_ok = true -> forall t,
   is_scalar_ty t = false -> is_ptr t = false -> fixed_size t = 0.
 Proof.
   intros HP t Hs Hq. destruct (params_split HP) as (_ & HF & _ & _).
@@ -87,7 +82,7 @@ Proof. intros t. destruct t; reflexivity. Qed.
 
 (* list elements of fixed kinds are read without a further check: the count
    check of dec_list uses exactly their width *)
-Lemma fixed_minwire : params_ok = true -> forall t,
+Lemma fixed_minwire : dec_params_ok = true -> forall t,
   0 < fixed_size t -> min_wire (wt t) = fixed_size t.
 Proof.
   intros HP. induction t as [| | | | | | | | |b e IH|k IHk v IHv|sid|t IH]; intros H;
@@ -392,7 +387,9 @@ Qed.
 
 Definition safe {A} (r : dres A) : Prop := r <> DPanic /\ r <> DFuel.
 
-Ltac ssafe := split; discriminate.
+(* [discriminate X], not [discriminate]: the latter also searches the context, and would use a
+   side condition [dec_params_ok = true] that computes to [false] when the generated constants are off *)
+Ltac ssafe := split; (let X := fresh in intro X; discriminate X).
 Ltac by_safe H := solve [ssafe | destruct H as [? ?]; congruence].
 
 Lemma take_len : forall n bs h r, take n bs = Some (h, r) -> len bs = n + len r.
@@ -461,7 +458,7 @@ Proof.
   intros H. assert (r1 = r) by congruence. subst r1. unfold len in *. lia.
 Qed.
 
-Lemma dec_string_safe : params_ok = true -> forall bs, safe (dec_string bs).
+Lemma dec_string_safe : dec_params_ok = true -> forall bs, safe (dec_string bs).
 Proof.
   intros HP bs. destruct (header_lens HP) as (_ & _ & Hs).
   unfold dec_string. rewrite Hs.
@@ -618,13 +615,13 @@ End LoopLen.
 
 (* Nothing below depends on the descriptor being well formed: the checks the
    decoder makes on the input protect it whatever the schema says.  What is
-   needed is params_ok: the header lengths, a positive minWireSize for every
+   needed is dec_params_ok: the header lengths, a positive minWireSize for every
    wire code (the divisor of the count checks), and minWireSize = FixedSize
    for the kinds whose list elements are read without a further check. *)
 Section LoopSafe.
   Variable env : senv.
   Variable fuel : nat.
-  Hypothesis HP : params_ok = true.
+  Hypothesis HP : dec_params_ok = true.
   Variable dt : ty -> list N -> val -> dres val.
   Hypothesis dt_len : forall t bs p v r, dt t bs p = DOk v r -> (length r <= length bs)%nat.
   (* decodeType is entered only for the kinds that are not read in place *)
@@ -861,7 +858,7 @@ Qed.
 Definition slot_pos (t : ty) : bool := fixed_size t =? 0.
 
 (* for every descriptor environment, well formed or not *)
-Theorem decode_safe_any : forall env fuel pool, params_ok = true ->
+Theorem decode_safe_any : forall env fuel pool, dec_params_ok = true ->
   forall d,
    (forall sd bs prior, (length bs < fuel)%nat -> safe (decode_struct env fuel pool d sd bs prior))
    /\ (forall t bs prior, slot_pos t = true -> (length bs < fuel)%nat ->
@@ -889,7 +886,7 @@ Proof.
       * destruct (lookup_sd env sid) as [sd|]; [|ssafe]. apply IHs. exact Hb.
 Qed.
 
-Theorem decode_safe : forall env fuel pool, params_ok = true -> env_ok env = true ->
+Theorem decode_safe : forall env fuel pool, dec_params_ok = true -> env_ok env = true ->
   forall d,
    (forall sd bs prior, In sd env -> (length bs < fuel)%nat ->
         decode_struct env fuel pool d sd bs prior <> DPanic
@@ -904,7 +901,7 @@ Proof.
   - intros t bs prior _ Hpos Hb. exact (Ht t bs prior Hpos Hb).
 Qed.
 
-Theorem decode_object_safe_any : forall env pool sid bs dst, params_ok = true ->
+Theorem decode_object_safe_any : forall env pool sid bs dst, dec_params_ok = true ->
   decode_object env pool sid bs dst <> DPanic /\ decode_object env pool sid bs dst <> DFuel.
 Proof.
   intros env pool sid bs dst HP. unfold decode_object, decode_object_f.
@@ -915,12 +912,12 @@ Proof.
     by_safe Hs.
 Qed.
 
-Theorem decode_object_safe : forall env pool sid bs dst, params_ok = true -> env_ok env = true ->
+Theorem decode_object_safe : forall env pool sid bs dst, dec_params_ok = true -> env_ok env = true ->
   decode_object env pool sid bs dst <> DPanic /\ decode_object env pool sid bs dst <> DFuel.
 Proof. intros env pool sid bs dst HP _. apply decode_object_safe_any. exact HP. Qed.
 
 (* so the outcome is a value with the unread rest, or an error *)
-Corollary decode_object_total : forall env pool sid bs dst, params_ok = true ->
+Corollary decode_object_total : forall env pool sid bs dst, dec_params_ok = true ->
   (exists v n rest, decode_object env pool sid bs dst = DOk (v, n) rest
                     /\ (length rest < length bs)%nat /\ n = len bs - len rest)
   \/ (exists e, decode_object env pool sid bs dst = DErr e).
@@ -940,14 +937,12 @@ Qed.
 (* ------------------------------------------------------------------ *)
 
 (* truncated to nothing: the first read of the field loop reports a short buffer *)
-Lemma decode_empty : forall env pool sid sd fs h, params_ok = true ->
+Lemma decode_empty : forall env pool sid sd fs h, dec_params_ok = true ->
   lookup_sd env sid = Some sd ->
   decode_object env pool sid [] (VT fs h) = DErr EShort.
 Proof.
   intros env pool sid sd fs h HP El. unfold decode_object, decode_object_f. rewrite El.
-  destruct (params_split HP) as (_ & _ & _ & Hd). unfold depth_ok in Hd.
-  apply andb_prop in Hd. destruct Hd as [Hd _]. apply andb_prop in Hd. destruct Hd as [Hd _].
-  apply N.leb_le in Hd.
+  destruct (params_split HP) as (_ & _ & _ & Hd).
   destruct (N.to_nat maxDepthLimit) as [|d] eqn:Ed; [lia|].
   rewrite decode_struct_S. reflexivity.
 Qed.
@@ -962,7 +957,7 @@ Proof.
 Qed.
 
 (* a string cut inside its length word, or inside its body *)
-Lemma dec_string_short : params_ok = true -> forall bs, len bs < 4 -> dec_string bs = DErr EShort.
+Lemma dec_string_short : dec_params_ok = true -> forall bs, len bs < 4 -> dec_string bs = DErr EShort.
 Proof.
   intros HP bs H. destruct (header_lens HP) as (_ & _ & Hs).
   unfold dec_string. rewrite Hs, short_spec. apply N.ltb_lt in H. rewrite H. reflexivity.
